@@ -304,6 +304,8 @@ def stream_shard(desc):
         force_long = i < desc.get('nlong', 0)
         if force_long:
             n = rng.randint(66000, 72000)
+            if desc.get('verylong') and i == 0:
+                n = desc['verylong'] + rng.randint(100, 400)
             kind = rng.choice(['random', 'trend_up', 'newmin_bursts', 'dups'])
         xs = make_stream(rng, kind, n)
         p = rng.choice(P_CHOICES) if rng.random() < 0.8 else rng.random()
@@ -319,7 +321,7 @@ def stream_shard(desc):
         else:
             wins = sorted(rng.randint(5, n - 60) for _ in range(4))
             if n > 65600:
-                wins = sorted(wins[:2] + [255 - 20, 4096 - 20, 65536 - 25])
+                wins = sorted(wins[:2] + [2 ** k_ - 25 for k_ in range(8, 24) if 2 ** k_ + 30 < n])
             pos = 0
             for w in wins:
                 if w > pos:
